@@ -283,6 +283,19 @@ func (x *hpTr) binary(c *hpCtx, v *ast.BinaryExpr) (hpVal, error) {
 		if a.unmod || b.unmod {
 			return hpVal{unmod: true}, nil
 		}
+		if a.kind == "perr" && b.kind == "nil" {
+			if v.Op == token.NEQ {
+				return hpVal{lean: a.lean + ".isSome", kind: "bool"}, nil
+			}
+			return hpVal{lean: a.lean + ".isNone", kind: "bool"}, nil
+		}
+		if t, ok := x.d.nilTests[a.kind]; ok && b.kind == "nil" {
+			l := hpSubst(t, a.lean, nil, "")
+			if v.Op == token.EQL {
+				l = "(!" + l + ")"
+			}
+			return hpVal{lean: l, kind: "bool"}, nil
+		}
 		if a.kind == "err" && b.kind == "nil" {
 			if v.Op == token.NEQ {
 				return hpVal{lean: a.lean, kind: "bool"}, nil
@@ -349,6 +362,14 @@ func (x *hpTr) index(c *hpCtx, v *ast.IndexExpr) ([]hpVal, error) {
 			return nil, err
 		}
 		return []hpVal{{lean: "(tableFind s " + k + ")", kind: "lease", st: hpMaybe}}, nil
+	}
+	if base.kind == "bytes" {
+		// b[i] for a constant i: the byte as a number (byteAt is total; the tie shows the guard of the source makes the index valid)
+		if tv, ok := x.info.Types[v.Index]; ok && tv.Value != nil {
+			if n, ok := constant.Int64Val(tv.Value); ok && n >= 0 {
+				return []hpVal{{lean: fmt.Sprintf("(byteAt %s %d)", base.lean, n), kind: "int"}}, nil
+			}
+		}
 	}
 	if q, ok := x.qualName(v.Index); ok {
 		key := base.kind + "[" + q + "]"
@@ -475,6 +496,10 @@ func (x *hpTr) call(c *hpCtx, call *ast.CallExpr) ([]hpVal, error) {
 		if k, ok := x.d.types[x.typeStr(call)]; ok && (k == r.kind || (k == "int" && r.kind == "int")) {
 			return []hpVal{r}, nil
 		}
+		if _, ok := x.d.params[x.typeStr(call)]; ok && r.kind == "msg" {
+			// packet.DHCP4(frame.Payload()): the payload seen as a DHCP message
+			return []hpVal{r}, nil
+		}
 		return nil, hpErr(call, "conversion %s", hpSrc(call))
 	}
 	if g := x.calleeOf(call); g != nil {
@@ -538,6 +563,12 @@ func (x *hpTr) call(c *hpCtx, call *ast.CallExpr) ([]hpVal, error) {
 	}
 	if ent.needs == "now" && !c.f.needNow {
 		return nil, hpErr(call, "time.Now outside the prepass")
+	}
+	if ent.effect != "" {
+		if x.effectPending != "" || !c.f.sends {
+			return nil, hpErr(call, "second dictionary call with an effect in one statement")
+		}
+		x.effectPending = hpSubst(ent.effect, base.lean, args, "")
 	}
 	if len(ent.kinds) > 0 {
 		var vals []hpVal
